@@ -8,6 +8,8 @@ import (
 	"io"
 	"os"
 	"sync"
+
+	"github.com/douban/gobeansdb/verifhook"
 )
 
 const (
@@ -145,6 +147,7 @@ func (tree *HTree) load(path string) (err error) {
 
 func (tree *HTree) dump(path string) {
 	tmp := path + ".tmp"
+	verifhook.Point("fs.create", tmp)
 	f, err := os.OpenFile(tmp, os.O_CREATE|os.O_WRONLY|os.O_TRUNC, 0644)
 	if err != nil {
 		logger.Errorf("fail to dump htree %s", err.Error())
@@ -198,7 +201,9 @@ func (tree *HTree) dump(path string) {
 	}
 	f.Close()
 	f = nil
+	verifhook.Point("fs.rename.before", tmp, path)
 	os.Rename(tmp, path)
+	verifhook.Point("fs.rename.after", tmp, path)
 	logger.Infof("htree dumped %s, min leaf %d, max leaf %d", path, minleaf, maxleaf)
 }
 
